@@ -160,8 +160,8 @@ def run(ctx):
             keys = []
             o1 = drive.parse_term(text)
             import re as _re
-            if o1[0] == "ok" and any(n[0] == "attr" and not _re.fullmatch(r"[A-Za-z_]\w*", n[2]) or
-                                     n[0] == "attr" and n[2].lower() in ("any", "all") for n in T.walk(o1[1])):
+            # (segments named any / all are writable since fix 37 and no longer part of the finding)
+            if o1[0] == "ok" and any(n[0] == "attr" and not _re.fullmatch(r"[A-Za-z_]\w*", n[2]) for n in T.walk(o1[1])):
                 keys.append("path-segment-only-writable-with-its-namespace")
             ctx.fail({"source": text, "mode": "raw"}, prob, expected="parse(render(t)) == t",
                      observed=detail, keys=keys, cls="raw-spelling", sig=[prob, sorted(keys), text.split("/")[0][:6] if keys else text])
